@@ -141,7 +141,9 @@ pub trait Prop {
     /// for a leg; legs with very large cases use a small budget.
     fn shrink_budget(leg: &str) -> (u32, u32) {
         if leg.starts_with("huge") {
-            (48, 160)
+            // no greedy post-shrink: building the candidate list of a case with
+            // 10^5..10^6 arcs costs more than it can gain
+            (48, 0)
         } else {
             (4000, 6000)
         }
@@ -359,6 +361,9 @@ impl Acc {
 /// candidate simplification that still fails, until none does.
 fn post_shrink<P: Prop>(acc: &mut Acc, mut case: P::Case, mut msg: String, mut budget: u32) -> (P::Case, String) {
     acc.frozen = true;
+    if budget == 0 {
+        return (case, msg);
+    }
     'outer: loop {
         for cand in P::shrink(&case) {
             if budget == 0 {
